@@ -2950,6 +2950,8 @@ static int scan_triple_delim_string(struct scanner_s *scanner) {
             } else {
                 delim_count = 0;
                 if (CLASS_OF(c, scanner) == EOL_CLASS) {
+                    /* SCAN_UCHAR() counted the line terminator itself, which is not part of the line's length */
+                    POSN_INCCOLUMN(scanner, -1);
                     HANDLE_EOL(scanner, c, sol);
                 } else {
                     sol = 0;
@@ -3021,9 +3023,10 @@ static int scan_text(struct scanner_s *scanner) {
                         struct scanner_s *_s_eol = (scanner);
                         UChar _c = (c);
 
-                        if (POSN_COLUMN(scanner) > CIF_LINE_LENGTH) {
+                        /* SCAN_UCHAR() counted the line terminator itself, which is not part of the line's length */
+                        if (POSN_COLUMN(scanner) > CIF_LINE_LENGTH + 1) {
                             int _ev = _s_eol->error_callback(CIF_OVERLENGTH_LINE, _s_eol->line,
-                                    scanner->column, _s_eol->next_char - 1, 0, _s_eol->user_data);
+                                    scanner->column - 1, _s_eol->next_char - 1, 0, _s_eol->user_data);
                             if (_ev != CIF_OK) return _ev;
                         }
                         sol = (((sol) << 2) + ((_c == UCHAR_NL) ? 1 : ((_c == UCHAR_CR) ? 2 : 3))) & 0xf;
